@@ -86,13 +86,20 @@ def run(facts, out, bodies=None):
                     ok, why = _local_kept(b, bl)
                     out.add('IC', b.path, 'fill:' + c['name'], loc_of(t['sp']), ok, why, {'buffer': '_%d' % bl})
                     continue
+                if all(e['k'] == 'deref' for e in pl['p']) and 1 <= pl['l'] <= b.argc and not fixture:
+                    # out-parameter: the buffer belongs to the callers; each must keep what it passes
+                    ok, why, n_sites = _out_param_kept(facts, bodies, b, pl['l'])
+                    out.add('IC', b.path, 'fill:' + c['name'], loc_of(t['sp']), ok, why,
+                            {'buffer': 'out-parameter _%d' % pl['l'], 'call_sites': n_sites})
+                    continue
                 out.add('IC', b.path, 'fill:' + c['name'], loc_of(t['sp']), False,
                         'reader fills a buffer that is neither a decoder field nor a returned local')
             # IC3
             if c['path'].startswith('std::vec::Vec::<T, A>::') and c['name'] in ('drain', 'truncate', 'split_off'):
                 l = op_local(t['args'][0])
                 pl = resolve_ref(b, l) if l is not None else None
-                if pl is not None and not pl['p'] and _is_reader_filled(b, pl['l']):
+                if pl is not None and (not pl['p'] or (all(e['k'] == 'deref' for e in pl['p']) and pl['l'] <= b.argc)) \
+                        and _is_reader_filled(b, pl):
                     ok = _drain_is_bom(b, t)
                     out.add('IC', b.path, 'trim:' + c['name'], loc_of(t['sp']), ok,
                             '' if ok else 'bytes read from the reader are removed from the buffer and are not the BOM length')
@@ -221,15 +228,45 @@ def run(facts, out, bodies=None):
                 '' if ok else 'entry point does more than wrap the reader and call D::decode: %s' % bad, ordinal=False)
 
 
-def _is_reader_filled(body, l):
+def _is_reader_filled(body, place):
     for bb, t in body.calls():
         c = callee_of(t)
         if c and c.get('trait') in ('std::io::Read', 'std::io::BufRead') and c['name'] in FILLERS:
             al = op_local(t['args'][-1])
             pl = resolve_ref(body, al) if al is not None else None
-            if pl is not None and not pl['p'] and pl['l'] == l:
+            if pl is not None and place_key(pl) == place_key(place):
                 return True
     return False
+
+
+def _out_param_kept(facts, bodies, callee_body, param_local):
+    """every caller on the decode path passes a buffer it keeps (decoder field or a kept local)"""
+    n = 0
+    for cb in bodies:
+        for bb, t in cb.calls():
+            if cb.is_cleanup(bb):
+                continue
+            c = callee_of(t)
+            if not c or facts.ref_path(c['path']) != facts.ref_path(callee_body.path):
+                continue
+            n += 1
+            if len(t['args']) < param_local:
+                return False, 'cannot match the out-parameter at a call site in %s' % cb.path, n
+            l = op_local(t['args'][param_local - 1])
+            pl = resolve_ref(cb, l) if l is not None else None
+            if pl is None:
+                return False, 'cannot resolve the buffer passed by %s' % cb.path, n
+            if any(e['k'] == 'deref' for e in pl['p']) and pl['l'] == 1:
+                continue
+            if not pl['p']:
+                ok, why = _local_kept(cb, pl['l'])
+                if not ok:
+                    return False, 'buffer passed by %s: %s' % (cb.path, why), n
+                continue
+            return False, 'buffer passed by %s is neither a decoder field nor a kept local' % cb.path, n
+    if n == 0:
+        return False, 'no call site of the function taking the out-parameter found on the decode path', 0
+    return True, '', n
 
 
 def _drain_is_bom(body, t):
